@@ -64,9 +64,11 @@ def loop_case(rng):
         r = rng.random()
         if ty == "int":
             form = rng.choice(["Sgate({x}, 0.5) | {x}", "BSgate(a={x}) | {x}, {x} + 1", "Dgate(A[{x}], {x} * 2 + n) | [n, {x} + 4]",
-                               "MeasureX(phi={x} / 2) | ({x})", "Kgate(l=[{x}, 1]) | 0", "Vac | {x}"])
+                               "MeasureX(phi={x} / 2) | ({x})", "Kgate(l=[{x}, 1]) | 0", "Vac | {x}",
+                               "Rgate(sin(A[{x}]), cos({x})) | {x}", "Sgate(r=exp({x}), l=[sqrt({x} + 1), 1]) | 1", "Dgate(sqrt(A[{x}] + {x})) | 0"])
         elif ty == "float":
-            form = rng.choice(["Sgate({x}, 0.5) | 0", "Rgate(a={x} * 2) | n", "Dgate({x} / 4 + 1, l=[{x}]) | [0, 1]"])
+            form = rng.choice(["Sgate({x}, 0.5) | 0", "Rgate(a={x} * 2) | n", "Dgate({x} / 4 + 1, l=[{x}]) | [0, 1]",
+                               "Dgate(sqrt({x}), cos({x})) | 0", "Sgate(r=exp({x})) | 1", "Rgate(log({x} + 1) * 2, l=[tanh({x})]) | n"])
         elif ty == "bool":
             form = rng.choice(["Sgate({x}) | 0", "Kgate(flag={x}) | n", "Op(1, {x}) | 2"])
         else:
